@@ -138,6 +138,22 @@ class C06(Prop):
                 if pre:
                     inp["pre"] = pre
                 out.append({"stream": "lookup", "tag": "%s:d%d:k%d%s" % (form, depth, kind, ":requery" if pre else ""), "input": inp})
+        # ---- systematic: integers that no float can tell apart - the literal selects exactly the record that holds that very
+        #      integer (not left to the chance of drawing BIG for both the field and the literal)
+        for _ in range(24 if tier == "quick" else 600):
+            recs = [{"id": BIG, "f": "a", "k1": "x"}, {"id": BIG - 1, "f": "b"}, {"id": 7, "f": "c"}, {"id": str(BIG), "f": "d"}]
+            rng.shuffle(recs)
+            v = str(rng.choice([BIG, BIG - 1, BIG + 1, 7]))
+            form = rng.choice(["eq", "ne", "text", "eqq"])
+            P = rng.choice(["r", "/r", "//r"])
+            q = rng.choice(["'", '"'])
+            xp = {"eq": "%s[id=%s]/f" % (P, v), "ne": "%s[id!=%s]/f" % (P, v), "text": "%s/id[text()=%s]/../f" % (P, v),
+                  "eqq": "%s[id=%s%s%s]/f" % (P, q, v, q)}[form]
+            mode = rng.choice(["convert", "wrap", "json"])
+            for kind in (0, 1, 2):
+                out.append({"stream": "lookup", "tag": "sys:bigint:%s:k%d" % (form, kind),
+                            "input": {"tree": {"r": recs, "z": 1}, "mode": mode, "xpath": xp, "kind": kind, "form": form, "ppath": ["r"],
+                                      "f": "f", "k": "id", "v": v}})
         return out
 
     def run_impl(self, case):
